@@ -2,7 +2,8 @@
 // VX-STATE by history replay on the real AddrMan(netgroupman, deterministic=true, consistency_check_ratio=0) with the
 // consistency check (AddrManImpl::CheckAddrman) called explicitly after the last operation of every history.
 // Address universes are found by a start-up search under the deterministic key: X and Y collide in a tried-table
-// slot, Z and Z2 sit in the new-table slot that X returns to when it is evicted from tried; plus one address per
+// slot, Z and Z2 sit in the new-table slot that X returns to when it is evicted from tried; P4/Q6 (IPv4 vs IPv6) and
+// R4/Onion (IPv4 vs Tor v3) share a tried slot across networks (config "crossnet"); plus one address per
 // other network (IPv6, Tor v3, I2P, CJDNS). Random decisions inside AddrMan (stochastic multi-bucket insertion,
 // SelectTriedCollision) are enumerated: the operations that draw randomness reseed the manager's private RNG with
 // one of two seeds chosen so that both outcomes of the first draw occur.
